@@ -17,7 +17,7 @@ CORPUS = os.path.join(vlib.ROOT, "corpus")
 
 HDR = """From Coq Require Import ZArith NArith List Bool Uint63.
 From Lib Require Import ZList.
-From Model Require Import Emitter EmitterTie.
+From Model Require Import Emitter EmitterTie EmitterExt EmitterTieX.
 Import ListNotations.
 Local Open Scope uint63_scope.
 """
@@ -125,10 +125,11 @@ def g_tokens(name, toks):
 
 
 def shard_text(encoded, variant):
-    """encoded: list of token lists"""
+    """encoded: list of token lists; variant = (append copies base, chunk_own, label_flush)"""
+    cb, own, flush = variant
     body = "".join(g_tokens("c%d" % i, t) for i, t in enumerate(encoded))
     return (HDR + body + "Definition cases : list (list int) := [%s].\n" % "; ".join("c%d" % i for i in range(len(encoded)))
-            + "Definition bad := Eval vm_compute in bad_encoded %s cases.\nPrint bad.\n" % bl(variant)
+            + "Definition bad := Eval vm_compute in bad_encodedX %s (mkFix %s %s) cases.\nPrint bad.\n" % (bl(cb), bl(own), bl(flush))
             + "Lemma tie : bad = [].\nProof. reflexivity. Qed.\n")
 
 
@@ -162,7 +163,9 @@ def run_tie(ck, harness):
         res["detail"] = "emitcases failed rc=%s: %s" % (rc, err[-600:])
         return res
     os.makedirs(vlib.RUN, exist_ok=True)
-    shards, cur, probe, index = [], [], [], {}
+    shards, cur, index = [], [], {}
+    probes = {"append": [], "chunks": [], "label": []}
+    probe_ids = {"append": [], "chunks": [], "label": []}
     for line in open(out_path):
         if line.startswith("CENSUS "):
             res["census"] = json.loads(line[7:])
@@ -192,8 +195,10 @@ def run_tie(ck, harness):
             if cond and len(res["samples"][key]) < 3:
                 res["samples"][key].append(compact(c))
         enc = e_case(c)
-        if c["tag"].startswith("builtin:append-base"):
-            probe.append(enc)
+        for which, pref in (("append", "builtin:append-base"), ("chunks", "builtin:db-chunks"), ("label", "builtin:label-before-base")):
+            if c["tag"].startswith(pref):
+                probes[which].append(enc)
+                probe_ids[which].append(c["id"])
         index[c["id"]] = (len(shards), c["tag"])
         cur.append(enc)
         if len(cur) >= sz["shard"]:
@@ -204,25 +209,34 @@ def run_tie(ck, harness):
     if not res["n"]:
         res["detail"] = "emitcases produced no case: " + err[-300:]
         return res
-    # which Append does the tree implement?  decided on the built-in discriminating history
-    if not probe:
-        res["detail"] = "harness produced no builtin:append-base case"
-        return res
-
-    def variant_job(v):
-        p = os.path.join(vlib.RUN, "EmitVariant_%s.v" % bl(v))
-        vlib.write_if_changed(p, shard_text(probe, v))
-        return vlib.coqc(p, timeout=300)
-    rv = vlib.parallel([lambda: variant_job(False), lambda: variant_job(True)])
-    okf, okt = rv[0][0] == 0, rv[1][0] == 0
-    if okf == okt:
-        res["detail"] = ("model agrees with the code on the Append/base probe under %s variants of Append:\n%s\n%s"
-                         % ("both" if okf else "neither", rv[0][1][-700:], rv[1][1][-700:]))
-        res["mismatch_ids"] = [0]
-        res["mismatch_cases"] = find_cases(out_path, [0])
-        return res
-    variant = okt
-    res["variant"] = variant
+    # which Append / EmitBytes / Label does the tree implement?  decided on the built-in discriminating histories
+    jobs, names = [], []
+    for which in ("append", "chunks", "label"):
+        if not probes[which]:
+            res["detail"] = "harness produced no built-in probe history for '%s'" % which
+            return res
+        for val in (False, True):
+            v3 = (val if which == "append" else False, val if which == "chunks" else False, val if which == "label" else False)
+            p = os.path.join(vlib.RUN, "EmitVariant_%s_%s.v" % (which, bl(val)))
+            vlib.write_if_changed(p, shard_text(probes[which], v3))
+            jobs.append(lambda p=p: vlib.coqc(p, timeout=300))
+            names.append((which, val))
+    rv = vlib.parallel(jobs)
+    decided = {}
+    for (which, val), r in zip(names, rv):
+        decided.setdefault(which, {})[val] = r
+    vd = {}
+    for which in ("append", "chunks", "label"):
+        okf, okt = decided[which][False][0] == 0, decided[which][True][0] == 0
+        if okf == okt:
+            res["detail"] = ("probe '%s': the model agrees with the code under %s values of the switch:\n%s\n%s"
+                             % (which, "both" if okf else "neither", decided[which][False][1][-700:], decided[which][True][1][-700:]))
+            res["mismatch_ids"] = probe_ids[which]
+            res["mismatch_cases"] = find_cases(out_path, probe_ids[which][:2])
+            return res
+        vd[which] = okt
+    variant = (vd["append"], vd["chunks"], vd["label"])
+    res["variant"] = {"append_copies_base": vd["append"], "chunk_own": vd["chunks"], "label_flush": vd["label"]}
     for n in os.listdir(vlib.RUN):
         m = re.match(r"Cases_EM_(\d+)\.", n)
         if m and int(m.group(1)) >= len(shards):
@@ -240,7 +254,7 @@ def run_tie(ck, harness):
     res["shards"] = len(shards)
     if bad:
         i, r = bad[0]
-        ids = [int(x) for x in re.findall(r"\((\d+),\s*\[", r[1])]
+        ids = [int(x) for x in re.findall(r"\((\d+)%Z,\s*\[", r[1])]
         res["detail"] = "shard %d: %s" % (i, r[1][-1200:])
         res["mismatch_ids"] = ids[:20]
         res["mismatch_cases"] = find_cases(out_path, ids[:3])
@@ -301,78 +315,84 @@ def falsify(ck, harness, which):
 
 PROP_HDR = """From Coq Require Import ZArith NArith List Bool.
 From Lib Require Import ZList.
-From Model Require Import Emitter.
+From Model Require Import Emitter EmitterTie EmitterExt.
 From Props Require Import EmitterProps.
 Import ListNotations.
 Local Open Scope Z_scope.
 """
 
-C19_V = PROP_HDR + """(* C19 against Model/Emitter.v; the model is tied to the tree under test by the Cases_EM_* files of this run *)
+C19_V = PROP_HDR + """(* C19 against Model/Emitter.v + EmitterExt.v, for ALL variants fx of the two listing routines (the tree under
+   test implements one of them: decided, like the Append variant, by the Cases_EM_* / EmitVariant_* files of this run) *)
 (* Len <= Cap in every state reachable through NewEmitter, any accepted or refused call, Clone, Append, Finalize *)
-Theorem C19_len_le_cap : forall e, reachable e -> 0 <= Len e <= Cap e.
+Theorem C19_len_le_cap : forall fx e, reachable fx e -> 0 <= Len e <= Cap e.
 Proof. exact len_le_cap. Qed.
 (* a refused call leaves bytes, Len, Cap, PC, every label and the base as they were.  Tracked flags and listing
    records are NOT in the list: REP/SEP update the tracker and EmitBytes appends its listing lines before the
    capacity check (Examples refused_rep_updates_tracker, refused_emitbytes_appends_listing) *)
-Theorem C19_refused_call_leaves : forall o e e', exec o e = Refused e' ->
+Theorem C19_refused_call_leaves : forall fx o e e', execX fx o e = Refused e' ->
   Bytes e' = Bytes e /\\ Len e' = Len e /\\ Cap e' = Cap e /\\ PC e' = PC e /\\
   (forall l, GetLabel l e' = GetLabel l e) /\\ GetBase e' = GetBase e.
 Proof. exact refused_leaves. Qed.
 Theorem C19_refused_append_leaves : forall cb a e a', Append cb a e = Refused a' -> a' = a.
 Proof. exact append_refused_leaves. Qed.
 (* which calls are refused: a width guard or a duplicate label, or -- only with a non-nil target -- capacity *)
-Theorem C19_refused_iff : forall o e, is_refused (exec o e) = pre_refused o e || cap_refused o e.
+Theorem C19_refused_iff : forall fx o e, is_refused (execX fx o e) = pre_refused o e || cap_refused fx o e.
 Proof. exact refused_iff. Qed.
 (* nil target vs a target in which nothing is refused for capacity: same PC, labels, tracked flags and same refused
    calls after EVERY prefix of ANY history; the nil-target emitter counts nothing *)
-Theorem C19_dry_run : forall ops b g k,
-  no_cap_refusal ops (new_em (Some b) g) = true ->
-  let dry := run (firstn k ops) (new_em None g) in
-  let real := run (firstn k ops) (new_em (Some b) g) in
+Theorem C19_dry_run : forall fx ops b g k,
+  no_cap_refusal fx ops (new_em (Some b) g) = true ->
+  let dry := runX fx (firstn k ops) (new_em None g) in
+  let real := runX fx (firstn k ops) (new_em (Some b) g) in
   PC (fst dry) = PC (fst real) /\\ (forall l, GetLabel l (fst dry) = GetLabel l (fst real)) /\\
   Flags (fst dry) = Flags (fst real) /\\ IsM16bit (fst dry) = IsM16bit (fst real) /\\
   IsX16bit (fst dry) = IsX16bit (fst real) /\\ snd dry = snd real /\\ Len (fst dry) = 0.
 Proof. exact dry_run_agrees. Qed.
 (* "big enough" is implied by: capacity >= sum of the sizes of all instructions and data blocks of the history *)
-Theorem C19_room_suffices : forall ops e, inv e -> buf e <> None ->
-  n e + total_demand ops <= zlen (code e) -> no_cap_refusal ops e = true.
+Theorem C19_room_suffices : forall fx ops e, inv e -> buf e <> None ->
+  n e + total_demand ops <= zlen (code e) -> no_cap_refusal fx ops e = true.
 Proof. exact room_suffices. Qed.
+(* the variant [today] is Model/Emitter.v itself *)
+Theorem C19_today_is_run : forall ops e, runX today ops e = run ops e.
+Proof. exact runX_today_run. Qed.
 Print Assumptions C19_len_le_cap.
 Print Assumptions C19_refused_call_leaves.
 Print Assumptions C19_refused_append_leaves.
 Print Assumptions C19_refused_iff.
 Print Assumptions C19_dry_run.
 Print Assumptions C19_room_suffices.
+Print Assumptions C19_today_is_run.
 """
 
-C16_STMT = """forall ops k target0 g target,
+C16_STMT = """forall fx ops k target0 g target,
   let e0 := new_em target0 g in
-  let a := fst (run (firstn k ops) e0) in
-  let c := fst (run (skipn k ops) (Clone target a)) in
+  let a := fst (runX fx (firstn k ops) e0) in
+  let c := fst (runX fx (skipn k ops) (Clone target a)) in
   (target0 = None <-> target = None) ->
-  no_cap_refusal (skipn k ops) a = true ->
-  no_cap_refusal (skipn k ops) (Clone target a) = true ->
+  no_cap_refusal fx (skipn k ops) a = true ->
+  no_cap_refusal fx (skipn k ops) (Clone target a) = true ->
   is_refused (Append %s a c) = false /\\
-  observe (state_of (Append %s a c)) = observe (fst (run ops e0))"""
+  observe (state_of (Append %s a c)) = observe (fst (runX fx ops e0))"""
 
-C16_TRUE_V = PROP_HDR + """(* C16 for the Append the tree implements (decided by the tie of this run): base is copied *)
+C16_TRUE_V = PROP_HDR + """(* C16 for the Append the tree implements (decided by the tie of this run): base is copied; for ALL variants fx of
+   the two listing routines *)
 (* observe = Bytes, Len, Cap, PC, Flags, GetBase, every label, both listings, and for every pair of visiting
    orders the Finalize outcome, the finalized bytes and both listings after Finalize *)
 Theorem C16_clone_append : """ + (C16_STMT % ("true", "true")) + """.
 Proof. exact C16_holds_with_base_copy. Qed.
 (* stronger, state level: the two emitters are EQUAL, and the same calls were refused *)
-Theorem C16_clone_append_state : forall t a target,
+Theorem C16_clone_append_state : forall fx t a target,
   inv a -> maps_sorted a -> (buf a = None <-> target = None) ->
-  no_cap_refusal t a = true -> no_cap_refusal t (Clone target a) = true ->
-  Append true a (fst (run t (Clone target a))) = Done (fst (run t a)) /\\
-  snd (run t (Clone target a)) = snd (run t a).
+  no_cap_refusal fx t a = true -> no_cap_refusal fx t (Clone target a) = true ->
+  Append true a (fst (runX fx t (Clone target a))) = Done (fst (runX fx t a)) /\\
+  snd (runX fx t (Clone target a)) = snd (runX fx t a).
 Proof. exact clone_append_state. Qed.
-Theorem C16_room : forall ops k b g bc,
+Theorem C16_room : forall fx ops k b g bc,
   let e0 := new_em (Some b) g in
-  let a := fst (run (firstn k ops) e0) in
-  let c := fst (run (skipn k ops) (Clone (Some bc) a)) in
+  let a := fst (runX fx (firstn k ops) e0) in
+  let c := fst (runX fx (skipn k ops) (Clone (Some bc) a)) in
   total_demand ops <= zlen b -> total_demand (skipn k ops) <= zlen bc ->
-  observe (state_of (Append true a c)) = observe (fst (run ops e0)).
+  observe (state_of (Append true a c)) = observe (fst (runX fx ops e0)).
 Proof. exact clone_append_room. Qed.
 Theorem C16_refused_append_leaves : forall cb a e a', Append cb a e = Refused a' -> a' = a.
 Proof. exact append_refused_leaves. Qed.
@@ -385,8 +405,9 @@ Print Assumptions C16_refused_append_leaves.
 Print Assumptions C16_append_refused_iff.
 """
 
-C16_FALSE_V = PROP_HDR + """(* the tree's Append does not copy base: for that emitter C16 is REFUTED (witness: SetBase in the cloned tail) *)
-Theorem C16_refuted : ~ (""" + (C16_STMT % ("false", "false")) + """).
+C16_FALSE_V = PROP_HDR + """(* the tree's Append does not copy base: for that emitter C16 is REFUTED (witness: SetBase in the cloned tail),
+   whichever variant of the listing routines *)
+Theorem C16_refuted : forall fx0, ~ (""" + (C16_STMT % ("false", "false")).replace("forall fx ops", "forall ops").replace(" fx ", " fx0 ") + """).
 Proof. exact C16_fails_without_base_copy. Qed.
 Print Assumptions C16_refuted.
 """
@@ -413,7 +434,7 @@ def prop_file(ck, name, text, thms):
 
 def hygiene(ck):
     bad = []
-    for rel in ("coq/Model/Emitter.v", "coq/Model/EmitterTie.v", "coq/Props/EmitterProps.v"):
+    for rel in ("coq/Model/Emitter.v", "coq/Model/EmitterTie.v", "coq/Model/EmitterExt.v", "coq/Model/EmitterTieX.v", "coq/Props/EmitterProps.v"):
         src = open(os.path.join(vlib.ROOT, rel)).read()
         for m in re.finditer(r"\b(Axiom|Parameter|Conjecture|Admitted|admit|Variable|Hypothesis|Unset Guard Checking|Unset Universe Checking)\b", src):
             bad.append("%s: %s" % (rel, m.group(1)))
@@ -482,7 +503,8 @@ def run_c19(ck):
         "C19_refused_append_leaves (Append cb a e = Refused a' -> a' = a)",
         "C19_refused_iff (refused <-> width guard / duplicate label / capacity)",
         "C19_dry_run (nil target vs target without capacity refusal: PC, labels, flags, refusals equal after every prefix)",
-        "C19_room_suffices (capacity >= total size implies no capacity refusal)"])
+        "C19_room_suffices (capacity >= total size implies no capacity refusal)",
+        "C19_today_is_run (the variant `today` is Model/Emitter.v)"])
     fails, stats = falsify(ck, harness, "c19")
     report_fails(ck, fails)
     if not fails:
@@ -493,7 +515,7 @@ def run_c19(ck):
         "distinct_nontrivial": nontriv,
         "rule": "tie: generated scripts run on the real emitter and on the model (checked by Coq); non-trivial for C19 = distinct scripts (by hash of target, listing flag, steps and refusals) with a nil target or at least one refused call. falsifier: every generated history x every capacity 0-3 bytes short of each item end (all capacities 0..size in the thorough tier) + nil-vs-real lockstep; its %d evaluations are in 'evaluations' only" % stats[1],
         "checker_cmd": "coqc build/work/Run/C19_emitter.v build/work/Run/Cases_EM_*.v (Lemma tie by vm_compute)",
-        "modelled": "asm/emitter.go, asm/flags.go by hand: coq/Model/Emitter.v",
+        "modelled": "asm/emitter.go, asm/flags.go by hand: coq/Model/Emitter.v + EmitterExt.v; variant decided by the tie: %s" % t.get("variant"),
         "falsifier_histories": stats[0],
     })
     for c in t["samples"]["refused"] + t["samples"]["nil"][:2]:
@@ -505,7 +527,7 @@ def run_c16(ck):
     harness, t = common(ck, "C16")
     if harness is None:
         return
-    variant = t.get("variant")
+    variant = (t.get("variant") or {}).get("append_copies_base")
     if variant is True:
         prop_file(ck, "C16_emitter_true.v", C16_TRUE_V, [
             "C16_clone_append (forall ops k targets: observe (append (run head) (run tail (clone))) = observe (run ops))",
@@ -529,7 +551,7 @@ def run_c16(ck):
         "distinct_nontrivial": nontriv,
         "rule": "tie: generated scripts run on the real emitter and on the model (checked by Coq); non-trivial for C16 = distinct scripts containing Clone and Append. falsifier: every generated history x EVERY split point, clone/append vs direct on the real code, plus frame checks; its %d evaluations are in 'evaluations' only" % stats[1],
         "checker_cmd": "coqc build/work/Run/C16_emitter_<variant>.v build/work/Run/Cases_EM_*.v (Lemma tie by vm_compute)",
-        "modelled": "asm/emitter.go, asm/flags.go by hand: coq/Model/Emitter.v; Append variant decided by the tie: copies_base = %s" % variant,
+        "modelled": "asm/emitter.go, asm/flags.go by hand: coq/Model/Emitter.v + EmitterExt.v; variant decided by the tie: %s" % t.get("variant"),
         "falsifier_histories": stats[0],
     })
     for c in t["samples"]["append"]:
